@@ -13,6 +13,7 @@
 -/
 import LucidProofs.C04
 import LucidProofs.C13b
+import LucidProofs.C14
 import LucidProofs.Lemmas.StableText
 
 namespace Lucid
@@ -276,6 +277,58 @@ theorem C13_whole_title_typed_src (S : Sorter) (hS : SorterOK S)
     (show 1 ≤ Gen.srcConsts.sortFactor by decide) (show 1 ≤ Gen.srcConsts.prepFactor by decide) Gen.srcScoreOrder
     ops hops hlim ix r hr s htitle hne
 
+/-! ### C14: typing two adjacent title words run together -/
+
+/-- **C14 (run-together spelling) for the typed string.** What a user learns: two adjacent words `w1 w2` of a stored
+    title, separated by exactly one separator character that the language's consonant/vowel table does not list,
+    at least three characters in all. If the run-together spelling `w1w2` is `Stable` (automatic for ASCII
+    lower-case letters / digits, `stable_of_asciiLower`) and stemming leaves it whole (`hstemq`; vacuous for a
+    language without stemmer), then **searching for the raw string `w1w2`** returns the record. The remaining
+    premises are about the stored title only. -/
+theorem C14_joined_typed_found_src (S : Sorter) (hS : SorterOK S)
+    (U : Unicode) (T : LangTables) (stem : List Nat → Nat)
+    (hU : UnicodeFacts U Gen.srcConsts) (hT : TablesOK T = true) (hSt : StemHyp (Gen.srcProg.env U T stem))
+    (ops : List StoreOp)
+    (hops : ∀ id t rating, StoreOp.add id t rating ∈ ops →
+      ∃ s, t = tokenizeRecord Gen.srcProg (Gen.srcProg.env U T stem) s)
+    (hlim : ((Store.new Gen.srcConsts).run S Gen.srcConsts Gen.srcScoreOrder ops).records.length
+              ≤ ((Store.new Gen.srcConsts).run S Gen.srcConsts Gen.srcScoreOrder ops).limit)
+    (ix : Nat) (r : Record)
+    (hr : ((Store.new Gen.srcConsts).run S Gen.srcConsts Gen.srcScoreOrder ops).records[ix]? = some r)
+    (w1 w2 : WordShape) (hw1 : w1 ∈ r.title.words) (hnext : r.title.words[w1.offset + 1]? = some w2)
+    (hadj : w2.lo = w1.hi + 1) (sep : Nat) (hsep : r.title.chars[w1.hi]? = some sep)
+    (hsepS : isSepChar U Gen.srcConsts sep = true) (hsepT : getCharClass T sep = none)
+    (hL : 3 ≤ w1.len + w2.len)
+    (hst : Stable (Gen.srcProg.env U T stem) (wchars r.title w1 ++ wchars r.title w2))
+    (hstemq : T.stemmer = true →
+      stem (wchars r.title w1 ++ wchars r.title w2) = (wchars r.title w1 ++ wchars r.title w2).length) :
+    ∃ res ∈ ((Store.new Gen.srcConsts).run S Gen.srcConsts Gen.srcScoreOrder ops).search S Gen.srcConsts
+        Gen.srcScoreOrder
+        (tokenizeQuery Gen.srcProg (Gen.srcProg.env U T stem) (wchars r.title w1 ++ wchars r.title w2)),
+      res.id = r.id ∧
+      res = ((Store.new Gen.srcConsts).run S Gen.srcConsts Gen.srcScoreOrder ops).render
+              (scoreHit Gen.srcConsts Gen.srcScoreOrder
+                (tokenizeQuery Gen.srcProg (Gen.srcProg.env U T stem) (wchars r.title w1 ++ wchars r.title w2)) r) := by
+  obtain ⟨s', hs'⟩ := reachable_title_tokenized S (Gen.srcProg.env U T stem) Gen.srcConsts Gen.srcScoreOrder ops
+    hops ix r hr
+  have hri : TokInv (Gen.srcProg.env U T stem) false s' r.title := by
+    rw [hs']; exact C15_record_anyK _ hU hT hSt s'
+  have hw2 : w2 ∈ r.title.words := List.mem_of_getElem? hnext
+  have hl1 : (wchars r.title w1).length = w1.len := (hri.slice_length w1 hw1).1
+  have hl2 : (wchars r.title w2).length = w2.len := (hri.slice_length w2 hw2).1
+  refine C14_joined_found_tokenized_src S hS U T stem hU hT hSt ops hops hlim ix r hr
+    (wchars r.title w1 ++ wchars r.title w2)
+    (stableWord (Gen.srcProg.env U T stem) (wchars r.title w1 ++ wchars r.title w2) false)
+    (by rw [tokenizeQuery_stable _ _ hst]; rfl) ?_ ?_ w1 w2 hw1 hnext hadj sep hsep hsepS hsepT
+    (by rw [tokenizeQuery_stable _ _ hst, wchars_stableText])
+  · rw [stableWord_len, List.length_append, hl1, hl2]; exact hL
+  · rw [stableWord_len]
+    show (if T.stemmer = true then stem (wchars r.title w1 ++ wchars r.title w2)
+      else (wchars r.title w1 ++ wchars r.title w2).length) = _
+    split
+    · exact hstemq ‹_›
+    · rfl
+
 namespace C03bExample
 open C13Example C03Example C04Example
 
@@ -360,6 +413,30 @@ example : ∃ res ∈ ((Store.new Gen.srcConsts).run exSorter Gen.srcConsts Gen.
     C13_whole_title_typed_src exSorter exSorter_ok toyU Gen.lang_en toyStem toyU_facts tablesOK_en
       (fun _ => toyStem_bounded _) exOps exOps_tok (by decide +kernel) 0 exRec (by decide +kernel)
       [65, 98, 99, 32, 100, 101, 102] rfl (by decide +kernel)
+  exact ⟨res, h1, h2⟩
+
+/-- the hypotheses of `C14_joined_typed_found_src` are met by the store of `C14Example` ("Ab c", "Abc def";
+    `lang_none`): typing the raw string "abcdef" finds "Abc def" -/
+example :
+    ∃ res ∈ ((Store.new Gen.srcConsts).run exSorter Gen.srcConsts Gen.srcScoreOrder C14Example.exOpsJ).search exSorter
+        Gen.srcConsts Gen.srcScoreOrder (tokenizeQuery Gen.srcProg C14Example.exEnvN [97, 98, 99, 100, 101, 102]),
+      res.id = 9 := by
+  obtain ⟨res, h1, h2, _⟩ :=
+    C14_joined_typed_found_src exSorter exSorter_ok toyU Gen.lang_none toyStem toyU_facts tablesOK_none
+      (stemHyp_of_no_stemmer _ rfl) C14Example.exOpsJ C14Example.exOpsJ_ok (by decide +kernel) 1
+      { ix := 1, id := 9, title := tokenizeRecord Gen.srcProg C14Example.exEnvN [65, 98, 99, 32, 100, 101, 102],
+        rating := 1 }
+      (by decide +kernel)
+      { offset := 0, lo := 0, hi := 3, stem := 3, pos := none, fin := true }
+      { offset := 1, lo := 4, hi := 7, stem := 3, pos := none, fin := true }
+      (by decide +kernel) (by decide +kernel) (by decide) 32 (by decide +kernel) (by decide) (by decide +kernel)
+      (by decide) (by decide +kernel) (by intro h; cases h)
+  have e : wchars (tokenizeRecord Gen.srcProg C14Example.exEnvN [65, 98, 99, 32, 100, 101, 102])
+        { offset := 0, lo := 0, hi := 3, stem := 3, pos := none, fin := true } ++
+      wchars (tokenizeRecord Gen.srcProg C14Example.exEnvN [65, 98, 99, 32, 100, 101, 102])
+        { offset := 1, lo := 4, hi := 7, stem := 3, pos := none, fin := true } = [97, 98, 99, 100, 101, 102] := by
+    decide +kernel
+  simp only [e] at h1
   exact ⟨res, h1, h2⟩
 
 end C03bExample
